@@ -137,6 +137,24 @@ theorem dedup_keeps (l : Store) : ∀ (seen : List Int) (y : Salt), y ∈ l → 
             · exact hs h)
           exact ⟨z, List.mem_cons_of_mem _ hz, hzs⟩
 
+theorem validAfter_iff (vu d : Int) : validAfter vu d = true ↔ vu > d := by
+  have h : Facts.C41.getValidStrict = true := rfl
+  unfold validAfter gtS; rw [h]; simp
+
+theorem keptByFilter_iff (vu d : Int) : keptByFilter vu d = true ↔ vu > d := by
+  have h : Facts.C41.getFilterStrict = true := rfl
+  unfold keptByFilter gtS; rw [h]; simp
+
+theorem filter_kept_eq (st : Store) (d : Int) :
+    st.filter (fun s => keptByFilter s.validUntil d) = st.filter (fun s => s.validUntil > d) := by
+  apply List.filter_congr
+  intro x _
+  cases h : keptByFilter x.validUntil d with
+  | true => have := (keptByFilter_iff _ _).mp h; simp [this]
+  | false =>
+    have : ¬ x.validUntil > d := fun h' => by rw [(keptByFilter_iff _ _).mpr h'] at h; cases h
+    simp [this]
+
 /-- The three outcomes of `Get`. -/
 theorem get_cases (st : Store) (d : Int) :
     (st = [] ∧ get st d = (st, none)) ∨
@@ -149,7 +167,28 @@ theorem get_cases (st : Store) (d : Int) :
   | some last =>
     right
     by_cases hv : last.validUntil > d
-    · left; exact ⟨last, rfl, hv, by simp [hv]⟩
-    · right; exact ⟨last, rfl, hv, by simp [hv]⟩
+    · left; exact ⟨last, rfl, hv, by simp [(validAfter_iff _ _).mpr hv]⟩
+    · right
+      have hv' : validAfter last.validUntil d = false := by
+        cases hc : validAfter last.validUntil d with
+        | false => rfl
+        | true => exact absurd ((validAfter_iff _ _).mp hc) hv
+      exact ⟨last, rfl, hv, by simp [hv', filter_kept_eq]⟩
+
+/-- Both orders of "store the new salt" and "forget the future salts" followed by one more
+`rpc.Do` are the canonical `Invoke`. -/
+theorem invokeW_good (ops : List Nat) (h : ops = [1, 2, 3] ∨ ops = [2, 1, 3])
+    (c : Conn) (now : Int) (rs : List Reaction) : invokeW ops c now rs = invokeCanon c now rs := by
+  rcases h with rfl | rfl <;>
+  · unfold invokeW invokeCanon
+    cases rs with
+    | nil => rfl
+    | cons r rest =>
+      cases r with
+      | result => rfl
+      | badMsg code ns => simp [applyOps, reset]
+
+theorem invoke_eq_canon (c : Conn) (now : Int) (rs : List Reaction) : invoke c now rs = invokeCanon c now rs :=
+  invokeW_good _ (Or.inl rfl) c now rs
 
 end TdModel.C41
